@@ -24,7 +24,12 @@ EXTENDS Integers, Sequences, FiniteSets, TLC
 CONSTANTS Forms,      \* menu of forms
           MaxReqs     \* requests per connection
 
-Modes == {"preparse", "ondemand", "ondemandlimit", "ondemandhijack", "untouched"}
+Modes == {"preparse", "ondemand", "ondemandlimit", "ondemandhijack", "untouched", "preparselimit", "ondemandtwice"}
+\* preparselimit / ondemandtwice: the form exists already (pre-parsed / parsed by MultipartForm()) and the
+\*            handler then calls MultipartFormWithLimit with a limit below the body size: the call returns the
+\*            form that exists; the request keeps owning its files until its end
+PreModes == {"preparse", "preparselimit"}
+DemandModes == {"ondemand", "ondemandlimit", "ondemandhijack", "ondemandtwice"}
 \* preparse : DisablePreParseMultipartForm = false, the server parses while reading the body
 \* ondemand : the handler calls ctx.MultipartForm()
 \* ondemandlimit: the handler calls MultipartFormWithLimit with a limit one byte below the body
@@ -43,8 +48,8 @@ Streams == BOOLEAN      \* StreamRequestBody
 HugeFiles(f) == { i \in DOMAIN f.files : f.files[i][3] = "huge" }
 BigFiles(f) == { i \in DOMAIN f.files : f.files[i][3] \in {"big", "huge"} }
 \* combinations worth distinguishing (a huge file costs 16 MiB per replay)
-Relevant(f, m, b) == /\ (HugeFiles(f) # {} => m = "preparse")
-                     /\ (m = "ondemandhijack" => b = "no")
+Relevant(f, m, b) == /\ (HugeFiles(f) # {} => m \in PreModes)
+                     /\ (m \in {"ondemandhijack", "preparselimit", "ondemandtwice"} => b = "no")
                      /\ (b = "epilogue" => m = "preparse")
 
 VARIABLES
@@ -52,6 +57,8 @@ VARIABLES
   keepHij,  \* Server.KeepHijackedConns
   noPre,    \* DisablePreParseMultipartForm: fixed-length multipart bodies are not pre-parsed either
             \* (otherwise on-demand parsing is only reachable through chunked bodies)
+  rmu,      \* Server.ReduceMemoryUsage: buffers are given back between requests; what is cleaned up
+            \* at the end of a request does not depend on it
   poolLimit,\* a request body pool size limit is configured (SetBodySizePoolLimit): big body
             \* buffers are dropped at Reset instead of being kept
   hist,     \* requests so far: [form, mode, broken]
@@ -60,10 +67,11 @@ VARIABLES
   tmp,      \* set of <<request index, file index>> temp files on disk
   seenTmp   \* history: tmp as found at each HandlerStart and at Close
 
-vars == <<stream, keepHij, noPre, poolLimit, hist, phase, parsed, tmp, seenTmp>>
+vars == <<stream, keepHij, noPre, poolLimit, rmu, hist, phase, parsed, tmp, seenTmp>>
 
 Init == /\ stream \in Streams /\ keepHij \in BOOLEAN /\ poolLimit \in (IF stream THEN BOOLEAN ELSE {FALSE})
         /\ noPre \in (IF stream THEN BOOLEAN ELSE {FALSE})
+        /\ rmu \in (IF poolLimit \/ noPre \/ keepHij THEN {FALSE} ELSE BOOLEAN)
         /\ hist = <<>> /\ phase = "wait" /\ parsed = FALSE /\ tmp = {} /\ seenTmp = <<>>
 
 Cur == hist[Len(hist)]
@@ -72,55 +80,55 @@ K == Len(hist)
 \* In buffered mode the whole body is in memory and parsed on demand with a threshold equal to
 \* its size: nothing is spooled.  In streaming mode the on-demand parser spools files above
 \* 8 KiB.  Pre-parsing (both modes) spools files above 16 MiB.
-SpooledBy(mode, f) == CASE mode = "preparse" -> HugeFiles(f)
-                        [] mode \in {"ondemand", "ondemandlimit", "ondemandhijack"} -> IF stream THEN BigFiles(f) ELSE {}
+SpooledBy(mode, f) == CASE mode \in PreModes -> HugeFiles(f)
+                        [] mode \in DemandModes -> IF stream THEN BigFiles(f) ELSE {}
                         [] OTHER -> {}
 
 Arrive(f, m, broken) ==
-  /\ phase = "wait" /\ K < MaxReqs /\ Relevant(f, m, broken) /\ (m = "preparse" => ~noPre)
+  /\ phase = "wait" /\ K < MaxReqs /\ Relevant(f, m, broken) /\ (m \in PreModes => ~noPre)
   /\ hist' = Append(hist, [form |-> f, mode |-> m, broken |-> broken])
   /\ phase' = "arrived"
-  /\ parsed' = (m = "preparse" /\ broken = "no")
+  /\ parsed' = (m \in PreModes /\ broken = "no")
   \* the pre-parser spools while the body is read; a failed pre-parse removes what it spooled
-  /\ tmp' = IF m = "preparse" /\ broken = "no" THEN tmp \cup { <<K + 1, i>> : i \in SpooledBy("preparse", f) } ELSE tmp
-  /\ UNCHANGED <<stream, keepHij, noPre, poolLimit, seenTmp>>
+  /\ tmp' = IF m \in PreModes /\ broken = "no" THEN tmp \cup { <<K + 1, i>> : i \in SpooledBy("preparse", f) } ELSE tmp
+  /\ UNCHANGED <<stream, keepHij, noPre, poolLimit, rmu, seenTmp>>
 
 \* a malformed pre-parsed form is a read error: error response, connection closed, nothing kept
 ArriveFails ==
-  /\ phase = "arrived" /\ Cur.mode = "preparse" /\ Cur.broken # "no"
+  /\ phase = "arrived" /\ Cur.mode \in PreModes /\ Cur.broken # "no"
   /\ seenTmp' = Append(seenTmp, tmp)
   /\ phase' = "closed"
-  /\ UNCHANGED <<stream, keepHij, noPre, poolLimit, hist, parsed, tmp>>
+  /\ UNCHANGED <<stream, keepHij, noPre, poolLimit, rmu, hist, parsed, tmp>>
 
 \* (seenTmp records the files of EARLIER requests; a pre-parsed request's own files exist already)
 HandlerStart ==
-  /\ phase = "arrived" /\ ~(Cur.mode = "preparse" /\ Cur.broken # "no")
+  /\ phase = "arrived" /\ ~(Cur.mode \in PreModes /\ Cur.broken # "no")
   /\ seenTmp' = Append(seenTmp, { t \in tmp : t[1] # K })
   /\ phase' = "handler"
-  /\ UNCHANGED <<stream, keepHij, noPre, poolLimit, hist, parsed, tmp>>
+  /\ UNCHANGED <<stream, keepHij, noPre, poolLimit, rmu, hist, parsed, tmp>>
 
 ParseOnDemand ==
-  /\ phase = "handler" /\ Cur.mode \in {"ondemand", "ondemandlimit", "ondemandhijack"} /\ ~parsed
+  /\ phase = "handler" /\ Cur.mode \in DemandModes /\ ~parsed
   /\ parsed' = TRUE
-  /\ tmp' = IF Cur.mode \in {"ondemand", "ondemandhijack"} /\ Cur.broken = "no"
+  /\ tmp' = IF Cur.mode \in {"ondemand", "ondemandhijack", "ondemandtwice"} /\ Cur.broken = "no"
             THEN tmp \cup { <<K, i>> : i \in SpooledBy("ondemand", Cur.form) }
             ELSE tmp          \* a failed or over-limit parse removes whatever it had spooled
-  /\ UNCHANGED <<stream, keepHij, noPre, poolLimit, hist, phase, seenTmp>>
+  /\ UNCHANGED <<stream, keepHij, noPre, poolLimit, rmu, hist, phase, seenTmp>>
 
 \* response written, Request.Reset: the request's temporary files are removed
 HandlerDone ==
-  /\ phase = "handler" /\ (Cur.mode \in {"ondemand", "ondemandlimit", "ondemandhijack"} => parsed)
+  /\ phase = "handler" /\ (Cur.mode \in DemandModes => parsed)
   /\ tmp' = { t \in tmp : t[1] # K }      \* (for a hijack: when the hijack handler has returned)
   /\ parsed' = FALSE
   \* a hijacked connection is not served again: only Close can follow
   /\ phase' = IF Cur.mode = "ondemandhijack" THEN "hijacked" ELSE "wait"
-  /\ UNCHANGED <<stream, keepHij, noPre, poolLimit, hist, seenTmp>>
+  /\ UNCHANGED <<stream, keepHij, noPre, poolLimit, rmu, hist, seenTmp>>
 
 Close ==
   /\ phase \in {"wait", "hijacked"}
   /\ seenTmp' = Append(seenTmp, tmp)
   /\ phase' = "closed"
-  /\ UNCHANGED <<stream, keepHij, noPre, poolLimit, hist, parsed, tmp>>
+  /\ UNCHANGED <<stream, keepHij, noPre, poolLimit, rmu, hist, parsed, tmp>>
 
 Next == \/ \E f \in Forms, m \in Modes, b \in Brokens : Arrive(f, m, b)
         \/ ArriveFails \/ HandlerStart \/ ParseOnDemand \/ HandlerDone \/ Close
